@@ -709,6 +709,20 @@ def rule_suffix_algo(ctx):
                 problems.append((st, "suffix format is not ':<n>' (%s)" % txt))
             if "useful_mnemonic" not in txt:
                 problems.append((st, "the suffixed name must be built from item.useful_mnemonic"))
+        # every matching item is renamed: inside the numbering loop nothing skips an item (no continue / break / extra condition)
+        if lp is not None:
+            for x in ast.walk(lp):
+                if isinstance(x, (ast.Continue, ast.Break)):
+                    problems.append((x, "the numbering loop skips items (`%s`): an item that keeps an old ':n' suffix can end up with the "
+                                        "same session name as a newly numbered one" % type(x).__name__.lower()))
+            cur_ = st
+            for par in parents(st):
+                if par is lp:
+                    break
+                if isinstance(par, (ast.If, ast.Try, ast.While)):
+                    problems.append((par, "inside the numbering loop the renaming is conditional on `%s`: some duplicates keep stale names"
+                                     % (unparse(par.test) if hasattr(par, "test") else type(par).__name__)))
+                cur_ = par
         guard = None
         cur = st
         for par in parents(st):
@@ -946,6 +960,14 @@ def rule_pk_state(ctx):
                 problems.append("the pickle state does not carry self.mnemonic (session name)")
             else:
                 carried.add("mnemonic")
+            # the state describes the item as it is now: nothing remembered from an earlier load is merged over it
+            for sub in walk_shallow(fi.node):
+                if isinstance(sub, ast.Call) and isinstance(sub.func, ast.Attribute) and sub.func.attr in ("update", "setdefault") \
+                        and isinstance(st, ast.Name) and isinstance(sub.func.value, ast.Name) and sub.func.value.id == st.id:
+                    problems.append("the pickle state is overwritten by `%s`: values remembered from an earlier load replace the item's "
+                                    "current session mnemonic in second-generation copies" % unparse(sub))
+                if isinstance(sub, ast.Dict) and any(k is None for k in sub.keys) and sub is st:
+                    problems.append("the pickle state merges another mapping (`%s`) over the current attributes" % unparse(sub))
         else:
             # acceptable alternative: the container re-establishes session names (PK.REBUILD); an item alone cannot
             problems.append("no state element: the session mnemonic of a single copied item is lost")
@@ -1103,6 +1125,15 @@ def rule_pk_independent(ctx):
                 continue
             calls = [ast.unparse(c.func) for c in walk_shallow(fi.node) if isinstance(c, ast.Call)]
             deep = any(x.endswith("deepcopy") for x in calls)
+            for sub in walk_shallow(fi.node):
+                if isinstance(sub, ast.Assign) and any(isinstance(t, ast.Attribute) and t.attr == "__dict__" for t in sub.targets) \
+                        and isinstance(sub.value, ast.Attribute) and sub.value.attr == "__dict__":
+                    deep = False
+                    calls.append("<copy>.__dict__ = self.__dict__ (the two objects share one attribute dict)")
+                if isinstance(sub, ast.Call) and isinstance(sub.func, ast.Attribute) and sub.func.attr == "update" and sub.args \
+                        and isinstance(sub.args[0], ast.Attribute) and sub.args[0].attr == "__dict__" \
+                        and ast.unparse(sub.func.value).endswith("__dict__") and False:
+                    pass
             ctx.check(deep, "PK.INDEPENDENT", site, fi, fi.node,
                       "%s.__deepcopy__ deep-copies its fields" % cls.name,
                       "%s.__deepcopy__ builds the copy without deep-copying its fields (calls: %s): np.asarray in the constructor "
@@ -1150,6 +1181,26 @@ def rule_pk_list_restore(ctx):
         direct = [unparse(c) for c in walk_shallow(dc.node) if isinstance(c, ast.Call) and isinstance(c.func, ast.Attribute)
                   and c.func.attr in ("append", "insert", "extend", "assign_duplicate_suffixes") and not (
                       isinstance(c.func.value, ast.Name) and c.func.value.id == "list") and not _is_super_call(c, None)]
+        lookups = [unparse(x) for x in walk_shallow(dc.node) if isinstance(x, ast.Subscript) and isinstance(x.ctx, ast.Load)
+                   and isinstance(x.value, ast.Name) and x.value.id == "self"]
+        lookups += [unparse(x) for x in walk_shallow(dc.node) if isinstance(x, (ast.For, ast.comprehension)) and isinstance(x.iter, ast.Call)
+                    and isinstance(x.iter.func, ast.Attribute) and x.iter.func.attr in ("keys", "values", "items", "iterkeys", "dictview")
+                    and isinstance(x.iter.func.value, ast.Name) and x.iter.func.value.id == "self"]
+        # the instance state copied from the original must survive: a constructor call after the state was restored resets it
+        restores = [x.lineno for x in walk_shallow(dc.node) if isinstance(x, ast.Call) and isinstance(x.func, ast.Attribute)
+                    and x.func.attr == "update" and ast.unparse(x.func.value).endswith("__dict__")]
+        restores += [x.lineno for x in walk_shallow(dc.node) if isinstance(x, ast.Assign) and any(
+            isinstance(t, ast.Attribute) and t.attr == "__dict__" for t in x.targets)]
+        inits = [x for x in walk_shallow(dc.node) if isinstance(x, ast.Call) and isinstance(x.func, ast.Attribute) and x.func.attr == "__init__"]
+        late = [x for x in inits if restores and x.lineno > min(restores)]
+        if late:
+            ctx.bad("PK.LIST-RESTORE", site + ":state-order", dc, late[0], "`%s` runs after the instance state was copied: __init__ resets "
+                    "mnemonic_transforms, so the copy of a case-normalised section compares mnemonics exactly (write() then appends a "
+                    "second VERS item instead of replacing the existing one)" % unparse(late[0])[:80])
+        if lookups:
+            ctx.bad("PK.LIST-RESTORE", site + ":enumeration", dc, dc.node, "__deepcopy__ enumerates the section through %s: a lookup by session "
+                    "mnemonic returns the first match, so when two items answer to one name the copy holds the first twice and loses "
+                    "the other; the items must be taken from `for item in self`" % lookups[0])
         ctx.check(not via and not direct, "PK.LIST-RESTORE", site, dc, dc.node,
                   "__deepcopy__ restores the items through list.extend/super(): no duplicate-suffix hook runs on the copy",
                   "__deepcopy__ fills the copy through %s: the renumbering hook runs on the copy" % (direct or via))
@@ -1174,3 +1225,73 @@ def rule_pk_list_restore(ctx):
             ctx.ok("PK.LIST-RESTORE", site, exf or next(iter(cls.methods.values())), cls.node,
                    "the unpickler refills the section through list.extend (not overridden with a hook) or a custom __reduce__")
     ctx.floor("PK.LIST-RESTORE", 2)
+
+
+READ_ACCESSORS = ("__getitem__", "__contains__", "__getattr__", "keys", "values", "items", "iterkeys", "itervalues", "iteritems",
+                  "dictview", "__str__", "mnemonic_compare")
+
+
+def rule_read_pure(ctx):
+    """SI.READ-PURE: the read accessors of a section (item / slice / attribute access, membership, keys/values/items,
+    dictview, str) never rename an item: nothing they reach calls assign_duplicate_suffixes or
+    set_session_mnemonic_only - also not on a new section built from the same item objects (a slice shares its items with
+    the parent, so renumbering the slice renumbers the parent)"""
+    p = ctx.p
+    r = get_resolver(p)
+    cls = p.cls(SI)
+    n = 0
+    for m in READ_ACCESSORS:
+        fi = cls.methods.get(m)
+        if fi is None:
+            continue
+        n += 1
+        clos = r.closure([fi])
+        hooks = sorted(q for q, f in clos.items() if f.name in ("assign_duplicate_suffixes", "set_session_mnemonic_only") and f is not fi)
+        site = "%s#no-rename" % fi.qual
+        if hooks:
+            # the call that leads there
+            via = None
+            for c in walk_shallow(fi.node):
+                if isinstance(c, ast.Call):
+                    tg = r.callees(fi, c)[0]
+                    if any(t.qual in hooks or any(h in r.closure([t]) for h in hooks) for t in tg):
+                        via = c
+                        break
+            ctx.bad("SI.READ-PURE", site, fi, via or fi.node, "%s reaches %s%s: reading a section re-assigns ':n' suffixes of item objects "
+                    "that also belong to the section being read (e.g. a slice built with append() renumbers the parent's duplicates)"
+                    % (m, ", ".join(hooks), (" through `%s`" % unparse(via)) if via is not None else ""))
+        else:
+            ctx.ok("SI.READ-PURE", site, fi, fi.node, "%s reaches no renaming hook" % m, nontrivial=m in ("__getitem__", "__contains__", "__getattr__"))
+    ctx.floor("SI.READ-PURE", 5)
+
+
+def rule_list_primitives(ctx):
+    """SI.LIST-PRIMITIVES: who may touch the list underneath a section.  Only methods of SectionItems itself place or remove
+    items with the plain list primitives (list.append(section, x), list.insert, list.extend, list.__setitem__, super() calls);
+    everywhere else items go through the SectionItems API, which keeps the session mnemonics unique."""
+    p = ctx.p
+    n = 0
+    hits = []
+    for q, fi in sorted(p.functions.items()):
+        if isinstance(fi.node, ast.Lambda):
+            continue
+        inside = fi.cls is not None and fi.cls.name == "SectionItems"
+        for c in walk_shallow(fi.node):
+            if isinstance(c, ast.Call) and isinstance(c.func, ast.Attribute) and isinstance(c.func.value, ast.Name) and c.func.value.id == "list" \
+                    and c.func.attr in ("append", "insert", "extend", "__setitem__", "__delitem__", "__iadd__", "remove", "pop", "sort", "reverse"):
+                if not inside:
+                    hits.append((fi, c))
+    n_mod = 0
+    for mod in ("reader", "las", "writer", "excel"):
+        fis = [f for f in p.functions.values() if f.module.name == mod]
+        bad = [(f, c) for (f, c) in hits if f.module.name == mod]
+        n_mod += 1
+        site = "%s#list-primitives" % mod
+        if bad:
+            f, c = bad[0]
+            ctx.bad("SI.LIST-PRIMITIVES", site, f, c, "`%s` in %s places an item with a plain list primitive, bypassing SectionItems: "
+                    "duplicate and blank mnemonics are not (or only conditionally) given their ':n' suffixes" % (unparse(c), f.qual))
+        else:
+            ctx.ok("SI.LIST-PRIMITIVES", site, fis[0] if fis else None, 0, "lasio/%s.py never applies list.* primitives to a section" % mod,
+                   nontrivial=mod in ("reader", "las"))
+    ctx.floor("SI.LIST-PRIMITIVES", 3)
